@@ -9,6 +9,48 @@ def summ(p):
     return json.loads([x for x in p.stdout.splitlines() if x.startswith('SUMMARY ')][-1][8:])
 
 
+def conc_saves(out, w, d):
+    import shutil
+    from . import c12
+    if not shutil.which('strace'):
+        raise Infra('strace not available')
+    exe = core.build_harness()
+    base = os.path.join(d, 'saves')
+    os.makedirs(base)
+    for sid in ('alice', 'bob'):
+        c12.result_of(core.run_harness(['fs-req', base, sid, '']))
+    logp = os.path.join(d, 'two.log')
+    p = c12.strace(exe, ['fs-two', base, 'alice', 'bob', '1'], logp)
+    if p.returncode != 0:
+        raise Infra('fs-two failed: %s' % p.stderr[-400:])
+    ops = [op for n, o, op, _ in c12.parse(logp, base) if op is not None]
+    cut = next((i for i, op in enumerate(ops) if op['f'] == '__marker__'), None)
+    if cut is None:
+        raise Infra('fs-two: marker not found in the strace log')
+    halves = []
+    for part in (ops[:cut], ops[cut + 1:]):
+        first = next((i for i, op in enumerate(part) if op['op'] in ('opentrunc', 'create', 'write', 'rename', 'unlink')), None)
+        if first is None:
+            raise Infra('fs-two: a save without file operations')
+        halves.append(part[first:])
+    ren = {'@alice': 'SA', '@bob': 'SB'}
+    norm = lambda f: ren.get(f, f)
+    mops = [[dict(op=o['op'], f=norm(o['f']), g=norm(o['g']), n=o['n']) for o in h if o['f'] != '__marker__'] for h in halves]
+    totals = [sum(o['n'] for o in h if o['op'] == 'write') for h in mops]
+    opsfile = os.path.join(d, 'ops2.json')
+    json.dump(dict(a=mops[0], b=mops[1], totala=totals[0], totalb=totals[1]), open(opsfile, 'w'))
+    open(os.path.join(w, 'fsc.cfg'), 'w').write(core.gen_cfg(invariants=['C19_SavesIndependent', 'C19_NoForeignBytes']))
+    r = core.tlc(w, 'FsSaveConc', 'fsc.cfg', workers=1, timeout=900, env={'VERIF_OPS': opsfile})
+    core.require_tlc_ok(r, 'FsSaveConc')
+    out.add_tlc('FsSaveConc: every interleaving of two recorded saves (%d + %d operations)' % (len(mops[0]), len(mops[1])), r)
+    out.sample(dict(kind='file operations of two real saves in one process (strace), interleaved by FsSaveConc.tla', a=mops[0], b=mops[1]))
+    out.cov['evaluations'] += 1
+    if r.violated:
+        out.violation('%s: some interleaving of the file operations the real code issues for two simultaneous saves into one directory loses or mixes a record: A=%s B=%s' % (
+            r.violated, json.dumps(mops[0]), json.dumps(mops[1])),
+            dict(property=PID, kind='conc-saves', invariants=r.violated, a=mops[0], b=mops[1], note='the free-running stage (mode F) reproduces it on real goroutines'))
+
+
 def run(tier):
     out = Outcome(PID, tier)
     thorough = tier == 'thorough'
@@ -30,6 +72,10 @@ def run(tier):
             raise Infra('Sessions: the repaired design violates %s (spec error)' % r.violated)
         out.add_tlc('Sessions Spare=%d CopyOnCatch=TRUE, all interleavings' % spare, r)
     out.cov['exhaustive'] = True
+    # ---- A2: two sessions saved at the same time into one filesystem directory: the real file operations of each save
+    #          (strace), every interleaving of them in the model
+    out.stage('A2 interleaved saves of two sessions (recorded file operations)')
+    conc_saves(out, w, d)
     # ---- B: every complete interleaving of the model, reproduced on the real VM through the hook gate
     out.stage('B deterministic schedules on the real VM')
     sp = os.path.join(d, 'scheds.ndjson')
@@ -79,6 +125,14 @@ def run(tier):
 
 def replay(path):
     case = json.load(open(path))
+    if case['kind'] == 'conc-saves':
+        out = Outcome(PID, 'quick')
+        conc_saves(out, core.spec_copy(), core.scratch('verif-c19r-'))
+        if out.violations:
+            log('VIOLATION property=%s replay=%s' % (PID, path))
+            return 1
+        log('replay: property holds on this case')
+        return 0
     if case['kind'] == 'race':
         p = core.run_harness(['race-run', os.path.join(core.SPEC, 'programs'), str(case['workers']), str(case['jobs']), str(case['spare'])], race=True, timeout=3000, check=False)
         s = summ(p)
